@@ -593,7 +593,13 @@ class BasicContiguousVector<cntgs::Options<Option...>, Parameter...>
         }
     }
 
-    constexpr void destruct() noexcept { BasicContiguousVector::destruct(begin(), end()); }
+    constexpr void destruct() noexcept
+    {
+        if (memory_)
+        {
+            BasicContiguousVector::destruct(begin(), end());
+        }
+    }
 
     constexpr void deallocate_locator() noexcept { locator_->deallocate(max_element_count_, get_allocator()); }
 
